@@ -26,6 +26,7 @@ import (
 	"sync"
 	"time"
 
+	"github.com/foxboron/go-uefi/efi/attributes"
 	"github.com/foxboron/go-uefi/efi/device"
 	"github.com/foxboron/go-uefi/efi/signature"
 	"github.com/foxboron/go-uefi/efi/util"
@@ -138,6 +139,24 @@ func init() {
 		r, done := streamOf(a["reader"], b)
 		defer done()
 		_, _, err := fw.ParseEfivars(r, len(b))
+		return errCls(err), ""
+	}
+	// ParseEfivars with a declared size that is not the length of the content (the size comes from Stat of a
+	// caller-supplied filesystem): first input byte = the declared size as a signed number, the rest = the content;
+	// both copies of the function
+	workerOps["efivars.declared"] = func(a map[string]string) (string, string) {
+		b := unhx(a["b"])
+		if len(b) == 0 {
+			return "ok", ""
+		}
+		size := int(int8(b[0]))
+		r, done := streamOf(a["reader"], b[1:])
+		defer done()
+		_, _, err := fswrapper.NewMemoryWrapper().ParseEfivars(r, size)
+		_, _, err2 := attributes.ParseEfivars(bytes.NewReader(b[1:]), size)
+		if (err == nil) != (err2 == nil) {
+			return "twins-differ", ""
+		}
 		return errCls(err), ""
 	}
 	workerOps["guid.parse"] = func(a map[string]string) (string, string) {
@@ -369,7 +388,7 @@ var c14Worker *Worker
 
 // entry points that take an io.Reader (the others take a *bytes.Buffer, a []byte or a string)
 var c14StreamEps = map[string]bool{"sigdb.read": true, "siglist.read": true, "sigdata.read": true, "auth.read": true, "wincert.read": true,
-	"wincertguid.read": true, "devicepath": true, "supportedsigs": true, "efivars.parse": true}
+	"wincertguid.read": true, "devicepath": true, "supportedsigs": true, "efivars.parse": true, "efivars.declared": true}
 
 // allocation budget: proportional to the input plus a constant for fixed-size buffers and the
 // runtime's own bookkeeping (error values, reflection in encoding/binary)
@@ -809,6 +828,11 @@ func c14Gen(c *Ctx) {
 		emit("efivars.parse", "random", "", b)
 		emit("guid.parse", "random", "", b)
 		emit("guid.bytes", "random", "", b)
+	}
+	for size := -3; size <= 12; size++ {
+		for _, n := range []int{0, 1, 3, 4, 5, 8, 11, 12, 13} {
+			emit("efivars.declared", "declared-size", "", append([]byte{byte(int8(size))}, randBytes(c, n)...))
+		}
 	}
 	for n := 0; n < 70; n++ {
 		emit("supportedsigs", "length", "", randBytes(c, n))
